@@ -3,6 +3,7 @@ import theta_rules as T
 import tuple_rules as U
 import chains
 import generic_lints
+import twins
 
 
 def run(facts, tier):
@@ -16,6 +17,7 @@ def run(facts, tier):
         ("theta writes", T.theta_writes, 5, "theta monotone"),
         ("duplicates/emptiness", T.emptiness_and_duplicates, 3, "insert only after a failed find (Theta and Tuple update paths)"),
         ("duplicate operands", lambda fa: generic_lints.duplicate_conjuncts(fa, ('theta/', 'tuple/')), 2, "no logical chain tests the same operand twice (copy-paste of the wrong peer)"),
+        ("overload twins", lambda fa: twins.overload_twins(fa, ('tuple/', 'theta/')), 1, "const& and && overloads of one operation have identical bodies modulo std::move/forward"),
     ):
         o = f(facts)
         obs += o
